@@ -460,8 +460,11 @@ func (env *Env) elabCall(n ECall) (string, SType, error) {
 		if err != nil {
 			return "", tBool, err
 		}
+		if fst.T == nil {
+			return "", tBool, fmt.Errorf("$apply needs a function value with one result")
+		}
 		sig, ok := fst.T.Underlying().(*types.Signature)
-		if fst.T == nil || !ok || sig.Results().Len() != 1 {
+		if !ok || sig.Results().Len() != 1 {
 			return "", tBool, fmt.Errorf("$apply needs a function value with one result")
 		}
 		as := []string{ft}
@@ -551,7 +554,7 @@ func (env *Env) elabCall(n ECall) (string, SType, error) {
 		if fn == nil {
 			return "", tBool, fmt.Errorf("fnvalue: unknown function %q", name)
 		}
-		return e.val(fn), tRef, nil
+		return e.val(fn), SType{T: fn.Signature}, nil
 	case "$idx": // $idx(N): the range index of loop N (rangeindex of an enclosing loop)
 		li, ok := n.Args[0].(EInt)
 		if !ok || env.idxOf == nil {
